@@ -148,6 +148,8 @@ Orbit =
         return orbit2frame(name, self, **kwargs)
 
     def as_statevector(self):
-        new_dict = self._data.copy()
+        # copy() so that the new object does not share its covariance,
+        # maneuver list or metadata with this one
+        new_dict = self.copy()._data
         new_dict.pop("propagator")
         return StateVector(self.base, **new_dict)
